@@ -35,6 +35,10 @@ CLAIMED = {
    text="Weak fit, stated in DESIGN.md: the CNF is a function of (framework, encoder). The simulator contributes the recording backend at the seam the property names and the encoder-object history (one encoder object encodes 0-2 other frameworks first, as solvers do per component/query - this matters for the hybrid encoder's RefCell tables). Per case the check is exhaustive over all 2^n argument subsets in both directions, plus range reachability/exclusion, arg_to_lit injectivity and assignment_to_extension round trip; cases are sampled (all encoders incl. the two public factory functions, both sides of the hybrid threshold).", note="Frameworks <= 8 arguments with compact ids.", ref="DESIGN.md 5/C10"),
  "C12": dict(level="exploration", technique=TECH + "operation histories incl. invalid/redundant operations, set-model refinement after every step)",
    text="Seeded update histories (3-80 operations over 1-8 labels, usize and String, invalid and redundant operations included) on AAFramework, compared after EVERY operation with a trivial set model on all public observables (counts, id order, lookups, three attack iterators, grounded extension, id stability, Err for invalid operations).", note="Trusted: RefStore set model. Sampling of histories; universes of at most 8 labels.", ref="DESIGN.md 5/C12"),
+ "C13": dict(level="fault_enumeration", technique="deterministic simulation with fault injection (per generated text, enumeration of stream faults at every byte offset - EOF, hard read error, flipped bit - plus seeded chunkings with EINTR through a faulty Read seam; two independent reference parsers as oracle)",
+   text="Texts of both grammars (well-formed with all listed layout variations, ill-formed of each listed class, token/byte corruptions) are delivered through a faulty stream; per text the faults are ENUMERATED at every offset (EOF = truncated file, hard error, one flipped bit), each also chunked with EINTR. The reader must never panic, must return Err on a hard error, must agree with the reference parser's verdict on the bytes actually delivered (exact framework for well-formed, Err for listed ill-formed classes, totality only where the spec is silent), and must be independent of the delivery schedule.", note="Trusted: RefIccma/RefApx; 'Unspecified' inputs only assert totality. Texts are small (<= ~300 bytes).", ref="DESIGN.md 5/C13"),
+ "C14": dict(level="fault_enumeration", technique="deterministic simulation with fault injection (frameworks from update histories written through a faulty Write seam: hard error / zero write at every byte offset, failing flush, short writes with EINTR; read-back through a faulty Read seam; reference parsers for the file and answer grammars)",
+   text="Frameworks produced by update histories (tombstones present) are written by AspartixWriter and read back (reference parser and real reader over a chunked stream): same labels, order and attack set; extension lines of both response writers parse by independent answer grammars to exactly the written labels; statuses are exactly YES/NO lines. Per write operation the write faults are ENUMERATED at every byte offset: the call must return Err, never panic, and emit only a prefix of the fault-free output; short writes/EINTR are transparent.", note="Labels restricted to valid Aspartix identifiers as the property states.", ref="DESIGN.md 5/C14"),
  "C15": dict(level="exploration", technique=TECH + "operation histories on SAT solver objects in lock-step (real CaDiCaL, real DIMACS writer/parser over a simulated solver program with seeded reply layouts), truth-table reference)",
    text="Histories of add_clause/reserve/solve/solve_under_assumptions (empty, unit, tautological clauses, unused reserved variables, assumptions on unseen variables, unconstrained solve right after an assumption solve) applied in lock-step to CadicalSolver and to BufferedSatSolver over SimChild; every verdict and model is checked against a truth table (<= 12 variables), value_of must be answerable for every declared variable.", note="ExternalSatSolver = BufferedSatSolver + exec_solver; exec_solver itself is covered by C16.", ref="DESIGN.md 5/C15"),
  "C16": dict(level="exploration", technique=TECH + "argumentation workloads over the real DIMACS writer with a strict validator inside the simulated solver program; schedules of feeder thread / child / reader on a simulated process-and-pipe seam; real-OS cross-check)",
